@@ -125,6 +125,17 @@ func genIntent(r *R, c Cfg) Intent {
 		if r.P(0.3) {
 			in.Headers = append(in.Headers, pick(r, c02HeaderUniverse))
 		}
+		if r.P(0.25) { // every listed name, plus (often) exactly one that is not listed
+			in.Headers = nil
+			for _, h := range c.RequestHeaders {
+				if h != "*" {
+					in.Headers = append(in.Headers, strings.ToLower(h))
+				}
+			}
+			if r.P(0.7) {
+				in.Headers = append(in.Headers, pick(r, []string{"zz-not-listed", "x-not-listed", "a-not-listed", pick(r, c02HeaderUniverse)}))
+			}
+		}
 	default:
 		in.Headers = subset(r, c02HeaderUniverse, 0.25)
 	}
